@@ -269,10 +269,24 @@ func c10Case(rt *rapid.T, ev *evid.Rec) {
 	if d := compareRows(res.Bytes(), e.DataRows(vals)); d != "" {
 		rt.Fatalf("VERIF-VIOLATION property=C10 decoder state corrupted by hostile input: %s\n mode=%s\n event=%s\n hostile=%x", d, desc, eventJSON(e), data)
 	}
-	if v := c10Insert(e, ig, topics, data); v != "" {
-		rt.Fatalf("VERIF-VIOLATION property=C10 %s\n mode=%s\n event=%s\n data=%x", v, desc, eventJSON(e), data)
+	// the log that carries the data: usually the declared event's own topics, sometimes another
+	// topic list (LOG0: none at all; one fewer; one more) — such logs reach Insert with every block
+	// that is loaded with its receipts
+	tshape := rapid.SampledFrom([]string{"own", "own", "own", "none", "fewer", "more"}).Draw(rt, "topicshape")
+	switch tshape {
+	case "none":
+		topics = nil
+	case "fewer":
+		topics = topics[:len(topics)-1]
+	case "more":
+		if len(topics) < 4 {
+			topics = append(append([][]byte{}, topics...), make([]byte, 32))
+		}
 	}
-	ev.Case(nontrivial, e.Signature()+desc+fmt.Sprintf("%x", data), "mode="+mode, fmt.Sprintf("marks>0=%v", len(marks) > 0))
+	if v := c10Insert(e, ig, topics, data); v != "" {
+		rt.Fatalf("VERIF-VIOLATION property=C10 %s\n mode=%s topics=%s\n event=%s\n data=%x", v, desc, tshape, eventJSON(e), data)
+	}
+	ev.Case(nontrivial, e.Signature()+desc+fmt.Sprintf("%x", data), "mode="+mode, fmt.Sprintf("marks>0=%v", len(marks) > 0), "topics="+tshape)
 	if nontrivial && ev.WantSample(4) {
 		ev.Sample(4, map[string]any{"signature": e.Signature(), "mutation": desc, "data_len": len(data)})
 	}
